@@ -208,7 +208,7 @@ class HostStatsSuite(Suite):
     case_type = 'hcase'
     shard_size = 40
     evals = {'mismatches': 'hmismatches', 'spec_violations': 'hspec_violations',
-             'known:F24-cpu-count-shrinks': 'hknown_f24', 'known:F25-cpu-over-100': 'hknown_f25'}
+             'known:F24-cpu-count-shrinks': 'hknown_f24'}
 
     def generate(self, rng, tier):
         n, max_len = (600, 14) if tier == 'quick' else (4000, 24)
@@ -231,8 +231,9 @@ class HostStatsSuite(Suite):
         def s(now, cpu, net=()):
             return (now, cpu, 1.0, list(net), [], [])
         return [
-            # F25 witness: 100.0 * work / total one ulp above 100
+            # former F25 witnesses (fixed): 100.0 * work / total was one ulp above 100 / overflowed
             ([5.0], 10, [(1, s(0.0, [(0.0, 0.0)])), (1, s(5.0, [(w, 0.0)]))]),
+            ([5.0], 10, [(1, s(0.0, [(0.0, 0.0)])), (1, s(5.0, [(2.0 ** 1020, 0.0)]))]),
             # F24 witness: fewer CPU entries than the first sample
             ([5.0], 10, [(1, s(0.0, [(0.0, 0.0)] * 3)), (1, s(5.0, [(1.0, 1.0)] * 3)),
                          (1, s(10.0, [(2.0, 2.0)] * 2)), (1, s(15.0, [(3.0, 3.0)] * 3))]),
@@ -600,7 +601,7 @@ class FloatSuite(Suite):
     case_type = 'fcase'
     shard_size = 300
     evals = {'mismatches': 'fmismatches', 'spec_violations': 'fspec_violations',
-             'known:F25-cpu-over-100': 'fknown_f25'}
+             'known:F25b-proc-cpu-over-100': 'fknown_proc_cpu'}
 
     def rfloat(self, rng):
         r = rng.random()
@@ -655,13 +656,20 @@ class FloatSuite(Suite):
             elif kind == 2:
                 d = rng.choice([1.0, 5.0, rng.uniform(1, 100), self.rfloat(rng)])
                 out.append(('rate', self.rint(rng), d))
+            elif rng.random() < 0.6:
+                # non-decreasing process counter, increase <= host work (equal 1 time in 3)
+                ref = rng.uniform(0, 1e5)
+                work = rng.choice([rng.uniform(0, 1e5), float(rng.randint(0, 1000))])
+                host = (ref + work) - ref if rng.random() < 0.34 else ((ref + work) - ref) + rng.uniform(0, 1e4)
+                out.append(('proccpu', ref + work, ref, host))
             else:
                 out.append(('proccpu', self.rfloat(rng), self.rfloat(rng), self.rfloat(rng)))
         return out
 
     def corpus(self):
         w = float.fromhex('0x1.baedf1e8837c2p+14')
-        return [('cpu', [(w, 0.0)], [(0.0, 0.0)]), ('int', 2 ** 64 - 1024), ('int', 2 ** 1024 - 2 ** 970),
+        return [('cpu', [(w, 0.0)], [(0.0, 0.0)]), ('cpu', [(2.0 ** 1020, 0.0)], [(0.0, 0.0)]),
+                ('proccpu', w, 0.0, w), ('int', 2 ** 64 - 1024), ('int', 2 ** 1024 - 2 ** 970),
                 ('int', 2 ** 1024 - 2 ** 970 - 1), ('rate', 5, 0.0), ('rate', 2 ** 64 - 1, 1.0)]
 
     @staticmethod
